@@ -189,6 +189,15 @@ func (h *hist) roundTrip(when string) {
 			"exported_height": exp1.Height, "procedure": "RequestInitChain{genesis time, chain id, initial height = exported height, exported consensus params / validators / app state} on a fresh app, then one empty block"})
 		return
 	}
+	// the base fee in force for the first block of the re-imported chain (as InitChain left it) against the base fee
+	// the exporting chain has in force for that very block
+	if B.InitBaseFee != nil {
+		h.run.Count("base_fee_in_force_after_init_compared", 1)
+		if B.InitBaseFee.String() != pre.BaseFee {
+			h.violation("changed-on-roundtrip:base-fee-in-force-for-the-first-block", map[string]any{"when": when, "exported_height": exp1.Height,
+				"base_fee_in_force_on_the_exporting_chain": pre.BaseFee, "base_fee_in_force_after_InitChain(export)": B.InitBaseFee.String(), "fee_params_exported": pre.FeeParams})
+		}
+	}
 	// the same empty block on the exporting app
 	if br := h.block(nil); br.Err != nil {
 		return
